@@ -376,7 +376,7 @@ impl Engine for AccessSim {
         Meta {
             engine: "cmdsim/accesssim",
             level: "exploration",
-            rule: "a scenario is a command tree with typed value parsers (ranged i64, u16, bool, boolish, possible values, OsString, PathBuf, String, counters, flags), an argv that parses successfully, and a history of 2-16 fallible typed accesses applied alternately to the resulting ArgMatches and to a clone of it (which shares every stored value through Arc): try_get_one/many/occurrences, try_remove_one/many/occurrences, try_get_raw, try_contains_id, try_clear_id, each with the right type, a wrong type, an unknown id, a group id or the external-subcommand id. Faults are the failing calls themselves (a wrong-type remove takes the entry out and must put it back). Non-trivial = >= 2 accesses with >= 1 failing access or removal; distinct = distinct scenario hash",
+            rule: "a scenario is a command tree with typed value parsers (ranged i64, u16, bool, boolish, possible values, OsString, PathBuf, String, counters, flags), an argv that parses successfully, and a history of 2-16 fallible typed accesses applied alternately to the resulting ArgMatches and to a clone of it (which shares every stored value through Arc): try_get_one/many/occurrences, try_remove_one/many/occurrences, try_get_raw, try_contains_id, try_clear_id, each with the right type, a wrong type, an unknown id, a group id or the external-subcommand id. Faults are the failing calls themselves (a wrong-type remove takes the entry out and must put it back). Non-trivial = >= 2 accesses with >= 1 failing access or removal; distinct = distinct scenario hash. Added during the build phase: all integer widths, edge / chained / directly constructed ranged parsers, EnumValueParser, counters with a range; a quarter of the accesses go through the panicking API (panic caught); language probes (one candidate, one parser, delivered as --probe=v, --probe v, through the environment or on a cloned command; switches through the environment); probes of external-subcommand words and of group ids",
             real_components: &["ArgMatches::try_get_* / try_remove_* / try_clear_id / try_contains_id", "MatchedArg, AnyValue (Arc sharing, downcast_into)", "the built-in value parsers that produced the values"],
             stub_components: &["reference model: id -> (type tag, raw values per occurrence, removed?) per copy; own decimal reader and literal tables for the typed reading"],
             workload_only_clauses: &["the language-equality clause (accepted set == specified set at every boundary) is only exercised as far as the workload's boundary values reach: accepted values are checked to be inside the language, rejected ones are not attributed"],
